@@ -205,7 +205,7 @@ def finish(ctx, rule, assumptions, extra=None):
             replay["mismatches"] = ctx.mismatches[:10]
             core.write_json(rp, replay)
             lines.append("VIOLATION property=%s replay=%s no-failing-input-found" % (ctx.prop, rp))
-    core.write_json(os.path.join(VERIF, "evidence", "%s.json" % ctx.prop), ev)
+    core.write_json(os.path.join(os.environ.get("VERIF_EVIDENCE_DIR") or os.path.join(VERIF, "evidence"), "%s.json" % ctx.prop), ev)
     for l in lines:
         print(l, flush=True)
     log("%s %s: %d evaluations, %d distinct, %d violations, %d mismatches, %.1fs" %
